@@ -445,7 +445,40 @@ theorem exit_reported_witness : ¬ ExitReported_full false := by
 theorem exit_zero (rc : Bool) : exitReport rc 0 = none := by
   cases rc <;> rfl
 
+/-! #### restarting hooks (`Restart: true`) -/
+
+/-- Every run of a restarting hook has the outcome of the first one: `run()` passes the unchanged
+command string and `c.Env` to `runOSSpecific` each time (nothing is carried over between runs). -/
+theorem restart_all_runs (rc : Bool) (split : Option (List Bytes)) (ok : Bool) (env osenv : Env) (code n : Nat) :
+    ∀ o ∈ runsRestart rc split ok env osenv code n, o = runCmdRestart rc split ok env osenv code := by
+  intro o ho
+  exact List.eq_of_mem_replicate ho
+
+/-- … so on every run the arguments are the element-wise expansion of the ORIGINAL words (a value is
+never expanded a second time), and the exit status is always reported. -/
+theorem restart_argv (rc : Bool) (prog : Bytes) (ws : List Bytes) (ok : Bool) (env osenv : Env) (code : Nat)
+    (argv : List Bytes) (rep : Option Nat)
+    (h : runCmdRestart rc (some (prog :: ws)) ok env osenv code = .ran argv rep) :
+    argv = ws.map (expandEnv env osenv) ∧ rep = some (waitResult rc code) := by
+  unfold runCmdRestart at h
+  cases hr : runCmd rc (some (prog :: ws)) ok env osenv code with
+  | ran a r =>
+    rw [hr] at h
+    injection h with h1 h2
+    subst h1 h2
+    exact ⟨(argv_elementwise rc prog ws ok env osenv code _ _ hr).1, rfl⟩
+  | panic => rw [hr] at h; cases h
+  | splitErr => rw [hr] at h; cases h
+  | startErr => rw [hr] at h; cases h
+
+theorem restart_reports_status (code : Nat) (h : code ≠ 0) : waitResult true code = code := by
+  simp [waitResult, h]
+
 /-! #### ties to the current source (facts regenerated by tools/xlate/c21) -/
+
+/-- the `Wait` closure of the current source returns the exit code (the driver's model assumes it) -/
+theorem tie_wait_returns_code : MtxVerif.Gen.C21.waitReturnsExitCode = true := rfl
+
 
 /-- the source applies `expandEnv` to the elements of `shellquote.Split`'s result -/
 theorem tie_expand_after_split : MtxVerif.Gen.C21.expandAfterSplit = true := rfl
